@@ -391,6 +391,81 @@ def check_env_transparency(ck):
     ck.encoded({"function": "initial/transition/observation/reward/terminal/truncate of 5 classic-control environments and 2 wrapper stacks", "equations": 0, "inputs": 0, "outputs": 0})
 
 
+def check_eager_equals_traced(ck):
+    """`the same result whether called eagerly [or] under jit ... and depends only on its explicit arguments`: the program an EAGER call executes
+    (jaxsmt.eager: the primitive applications of a real eager call, recorded after ANOTHER instance of the same class has been used eagerly in the
+    same process) against the traced program of the same component, as functions of all array leaves of (env, state, action, key)"""
+    import diffrax
+    from jaxsmt.eager import record_eager
+    from jaxsmt.uf import GenericWorld, eager_world
+    from lerax.env.classic_control import Acrobot, CartPole, ContinuousMountainCar, MountainCar, Pendulum
+    eu = diffrax.Euler
+    pairs = {"CartPole": (CartPole(), CartPole(gravity=1.62, force_mag=25.0, dt=0.05, solver=eu())),
+             "Pendulum": (Pendulum(), Pendulum(g=3.7, m=2.0, l=0.5, max_speed=4.0, solver=eu())),
+             "MountainCar": (MountainCar(), MountainCar(max_speed=0.5, force=0.002, solver=eu())),
+             "ContinuousMountainCar": (ContinuousMountainCar(), ContinuousMountainCar(power=0.003, max_speed=0.25, solver=eu())),
+             "Acrobot": (Acrobot(), Acrobot(gravity=3.7, link_mass_2=2.0, solver=eu()))}
+    if not ck.thorough:
+        pairs = {k: pairs[k] for k in ("CartPole", "Pendulum", "MountainCar")}
+    CONTROL = {"cond", "while", "scan"}
+    for ename, (A, B) in pairs.items():
+        stA, actA = A.initial(key=jr.key(0)), A.action_space.canonical()
+        st, act = B.initial(key=jr.key(3)), B.action_space.canonical()
+        comps = {
+            "transition": (lambda e, s, a, k: e.transition(s, a, key=k), [st, act, jr.key(1)], ["s", "a", "key"]),
+            "observation": (lambda e, s, k: e.observation(s, key=k), [st, jr.key(1)], ["s", "key"]),
+            "reward": (lambda e, s, a, s2, k: e.reward(s, a, s2, key=k), [st, act, st, jr.key(1)], ["s", "a", "s2", "key"]),
+            "terminal": (lambda e, s, k: e.terminal(s, key=k), [st, jr.key(1)], ["s", "key"]),
+        }
+
+        def history(A=A, stA=stA, actA=actA):
+            # the other instance is used first, eagerly, through every component
+            s1 = A.transition(stA, actA, key=jr.key(2))
+            A.observation(s1, key=jr.key(2)), A.reward(stA, actA, s1, key=jr.key(2)), A.terminal(s1, key=jr.key(2))
+        for cname, (f, ex, argn) in comps.items():
+            oid = f"{ename}.{cname}"
+            with stubs.ode_stub(), stubs.prng_stubs(), eager_world(GenericWorld(seed=5)):
+                trT = trace(f, B, *ex, argnames=["env"] + argn, label=f"{ename}.{cname} (traced)")
+                if CONTROL & set(__import__("jaxsmt.trace", fromlist=["primitives"]).primitives(trT.jaxpr)):
+                    ck.skip(f"eager_equals_traced.{oid}", "the traced program has control-flow primitives: an eager recording is one path only")
+                    continue
+                try:
+                    trE = record_eager(f, B, *ex, argnames=["env"] + argn, label=f"{ename}.{cname} (eager call, recorded)", before=history)
+                except Exception as exn:  # noqa: BLE001
+                    ck.fact(f"eager_runs.{oid}", False, f"the eager call raised {exn!r}")
+                    continue
+            if ename == "CartPole" and cname == "transition":
+                ck.encoded(trE, trT)
+            same_sig = trE.in_names == trT.in_names and trE.out_names == trT.out_names and [tuple(a.shape) for a in trE.out_avals] == [tuple(a.shape) for a in trT.out_avals]
+            ck.fact(f"eager_reads_only_its_arguments.{oid}", same_sig and not trE.hidden,
+                    f"arrays read by the eager call that are neither its arguments nor computed from them: {trE.hidden[:3]}; signatures equal: {same_sig}")
+            if not same_sig:
+                continue
+            it = Interp()
+            S = trT.symbols(it)
+            oT, oE = trT.run(it, S), trE.run(it, S)
+            alias = [eq_arr(S[a], S[b]) for a, b in trE.aliases]
+
+            def rp(res, f=f, B=B, trT=trT, S=S, it=it):
+                keys = concrete.KeyBinding(res)
+                vals = [concrete.model_leaf(res, S[m], av, keys) for m, av in zip(trT.in_names, trT.in_avals)]
+                leaves, treedef = jax.tree_util.tree_flatten((B, *[x for x in trT.args[1:]]), is_leaf=None)
+                dyn = [l for l in leaves if eqx.is_array(l)]
+                assert len(dyn) == len(vals)
+                itv = iter(vals)
+                args = jax.tree_util.tree_unflatten(treedef, [next(itv) if eqx.is_array(l) else l for l in leaves])
+                with stubs.ode_stub(), stubs.prng_stubs():
+                    from jaxsmt.uf import world
+                    with world(GenericWorld(seed=5)), eager_world(GenericWorld(seed=5)):
+                        eager = jax.tree_util.tree_leaves(f(*args))
+                        jitted = jax.tree_util.tree_leaves(eqx.filter_jit(f)(*args))
+                bad = any(np.shape(a) != np.shape(b) or not np.allclose(concrete.real_to_float(a), concrete.real_to_float(b), rtol=1e-4, atol=1e-5, equal_nan=True) for a, b in zip(eager, jitted))
+                return bad, {"function": f"{ename}.{cname}", "history": "another instance of the class was used eagerly first", "eager": [np.asarray(concrete.real_to_float(a)).reshape(-1)[:6].tolist() for a in eager],
+                             "under_filter_jit": [np.asarray(concrete.real_to_float(a)).reshape(-1)[:6].tolist() for a in jitted],
+                             "inputs": {n: np.asarray(concrete.real_to_float(v)).reshape(-1)[:6].tolist() for n, v in zip(trT.in_names, vals)}}
+            ck.prove(f"eager_equals_traced.{oid}", alias, conj([eq_arr(oE[n], oT[n]) for n in trT.out_names]), replay=rp, nonlinear=True)
+
+
 def check_mujoco_transparency(ck, names):
     """MuJoCo / G1 components with the physics engine stubbed (uninterpreted, batching rule): traced without Python branching on values, and
     the vmapped component is lane-wise equal to the unbatched one"""
@@ -453,7 +528,8 @@ def main():
     ck.stub("environment and policy uninterpreted (lanes statement)", *stubs.ODE_NOTES, "PRNG samplers: contract stubs (uf of the key), keys: free algebra",
             "probe subclasses cut `train` out of iteration() to expose the collected data (the collection code is the real one)")
     ck.out("floating-point reassociation differences between modes", "MuJoCo component equivalence under vmap is shown with the physics engine stubbed (2 environments quick, all 11 thorough); G1 components and the real MJX kernels under vmap are outside the claim",
-           "XLA numerics of jit vs eager")
+           "XLA numerics of jit vs eager", "eager calls of components whose traced program has control flow (an eager recording is a single path); eager calls of the "
+           "wrappers, MuJoCo and G1 environments (the eager-mode recorder is applied to the classic-control components)")
     for kind in (("discrete", "box")):
         with ck.section(f"onpolicy.{kind}"):
             check_onpolicy_lanes(ck, kind)
@@ -472,6 +548,8 @@ def main():
         check_pytree_roundtrip(ck)
     with ck.section("env_transparency"):
         check_env_transparency(ck)
+    with ck.section("eager_equals_traced"):
+        check_eager_equals_traced(ck)
     mj = ["HalfCheetah", "InvertedPendulum"] if not ck.thorough else ["Ant", "HalfCheetah", "Hopper", "Humanoid", "HumanoidStandup", "InvertedDoublePendulum", "InvertedPendulum", "Pusher", "Reacher",
                                                                       "Swimmer", "Walker2d"]
     for ename in mj:
@@ -482,7 +560,9 @@ def main():
               "policy state, observations, actions, rewards, dones, log-probs, values, returns, advantages; replay rows for off-policy) is shown equal to "
               "the single-environment result from (state[e], split(rollout_key,E)[e]), and lane 0 is shown invariant under arbitrary changes of lane 1 "
               "(2-safety). Every component of the classic-control environments traces without Python branching on traced values and its vmapped jaxpr is "
-              "shown lane-wise equal to the unbatched one.")
+              "shown lane-wise equal to the unbatched one. The program an EAGER call of a classic-control component executes (recorded primitive by primitive from a "
+              "real eager call made after another instance of the class was used) is shown equal to the traced program as a function of every array leaf "
+              "of (environment, state, action, key), and to read no array besides those.")
 
 
 if __name__ == "__main__":
